@@ -312,3 +312,37 @@ func spec_isExprNode(e Expr) bool {
 	}
 	return false
 }
+
+// C12: type precedence written from the documentation of DataType.LessThan and
+// the statement of the property: Float > Integer > Unsigned > String > Boolean >
+// Time > Duration > Tag > AnyField > Unknown.
+func spec_typeRank(d DataType) int {
+	if d == Float {
+		return 9
+	}
+	if d == Integer {
+		return 8
+	}
+	if d == Unsigned {
+		return 7
+	}
+	if d == String {
+		return 6
+	}
+	if d == Boolean {
+		return 5
+	}
+	if d == Time {
+		return 4
+	}
+	if d == Duration {
+		return 3
+	}
+	if d == Tag {
+		return 2
+	}
+	if d == AnyField {
+		return 1
+	}
+	return 0
+}
